@@ -83,8 +83,10 @@ def op_script(o):
             else:
                 args.append({"t": {"int": "int", "bool": "bool"}.get(a["k"], "string"), "v": a["v"]})
         return {"op": op, "id": o["id"], "ctor": o["ctor"].split(".")[-1], "args": args}
-    if op in ("Getter", "GetterInContext", "MustGetter", "MustGetterInContext"):
-        return {"op": op, "name": o["id"], "ctx": o.get("ctx", 0)}
+    if op in ("Getter", "GetterInContext"):
+        return {"op": op, "name": o["id"] + ("InContext" if op.endswith("InContext") else ""), "ctx": o.get("ctx", 0)}
+    if op in ("MustGetter", "MustGetterInContext"):
+        return {"op": op, "name": "Must" + o["id"] + ("InContext" if op.endswith("InContext") else ""), "ctx": o.get("ctx", 0)}
     raise ValueError(op)
 
 
@@ -193,8 +195,15 @@ def compare_case(case, res):
         return {"what": "result count", "got": len(obs), "want": len(hist)}
     mterms, oterms = [], []
     for i, (h, o) in enumerate(zip(hist, obs)):
+        must = h["op"]["op"].startswith("Must")
         if "panic" in o:
+            if must and not h["ok"]:
+                continue                     # Must* getters panic exactly when the getter errs
             return {"what": "panic", "op": h["op"], "index": i, "panic": o["panic"][:300]}
+        if "nomethod" in o:
+            return {"what": "method missing", "op": h["op"], "index": i}
+        if must and not h["ok"]:
+            return {"what": "must-getter does not panic on error", "op": h["op"], "index": i, "observed": o}
         if h["ok"] != ("ok" in o):
             return {"what": "ok/error mismatch", "op": h["op"], "index": i, "model": {"ok": h["ok"], "err": h["err"]},
                     "observed": o.get("err", "ok")[:300] if isinstance(o.get("err", "ok"), str) else "ok"}
@@ -330,3 +339,132 @@ def run_c15(tier):
                   "graphs and the invocation counters of the parameter function (zero right after the constructor) are compared; "
                   "non-trivial = the history contains an override or a failing operation" % (3 if tier == "quick" else 4),
                   ["TodoFails", "LazyParams", "SharedOnce"], COMMON_ASSUMPTIONS)
+
+
+BASE_API = {"Get", "GetInContext", "CircularDeps", "OverrideService", "AddDecorator", "IsTaggedBy", "GetTaggedBy",
+            "GetTaggedByInContext", "GetParam", "OverrideParam", "HotSwap", "Root"}
+
+
+def run_c13(tier):
+    pid = "C13"
+    t0 = time.time()
+    rng = random.Random(core.seed())
+    v = core.Verdict(pid)
+    fam = "apiq" if tier == "quick" else "api"
+    r = core.run_tlc("MC_Container.tla", "MC_Container_%s.cfg" % fam, timeout=3000)
+    if r.violation:
+        raise core.InfraError("TLC: design-level invariant violated in MC_Container/%s:\n%s" % (fam, r.raw_tail[-2500:]))
+    rp = Replayer("C13-" + fam, rng)
+    for c in r.emitted:
+        rp.add_case(c)
+    entries = rp.generate()
+    n_rej = n_acc = 0
+    for e in entries:
+        api = e["cases"][0]["api"]
+        tool_ok = e["tool"]["exit"] == 0
+        if e["tool"]["exit"] not in (0, 1):
+            v.disagree("abnormal-exit", {"yaml": e["yaml"]}, {"exit": e["tool"]["exit"], "panic": e["tool"].get("panic", "")[:400]})
+            e["source"] = None
+            continue
+        if api["accept"]:
+            n_acc += 1
+        else:
+            n_rej += 1
+            if tool_ok:
+                viol = sorted(x[1] for x in api["violations"])
+                v.disagree("colliding-or-illegal-getter-accepted", {"yaml": e["yaml"]}, {"model_violations": api["violations"]},
+                           tags={"classes": viol})
+            else:
+                # every offending service is named
+                errs = core.Report(e["tool"]["stdout"]).errors
+                for svc, cls in api["violations"]:
+                    if not any(core.mentions(x, svc) for x in errs):
+                        v.disagree("getter-violation-not-named", {"yaml": e["yaml"]}, {"service": svc, "class": cls, "errors": errs[:5]})
+                        break
+            e["source"] = None            # nothing to compile
+    # tool rejections of configurations the model accepts stay unobservable (C11's business)
+    results = {}
+    accepted = [e for e in entries if e["source"] is not None]
+    for e in accepted:
+        e["cases"][0]["hist_extra"] = True
+    # Methods op in front of every script
+    rp.counters = False
+    out = {}
+    good_entries = accepted
+    import shutil as _sh
+    for bi in range(0, len(good_entries), 250):
+        chunk = good_entries[bi:bi + 250]
+        pb = probemod.Probe(name="probe-C13-%d" % bi)
+        for e in chunk:
+            pb.add(e["name"], e["source"], ctor=e["cases"][0]["api"]["names"]["cctor"])
+        good = set(pb.build())
+        for n, msg in pb.failed.items():
+            ent = next(x for x in chunk if x["name"] == n)
+            rp.unobservable["does-not-compile"] += 1
+            # a wrong constructor name or colliding methods show up here: decide which
+            txt = "\n".join(msg)
+            if "undefined: %s" % ent["cases"][0]["api"]["names"]["cctor"] in txt:
+                v.disagree("constructor-name", {"yaml": ent["yaml"]}, {"expected": ent["cases"][0]["api"]["names"], "compiler": msg[:4]})
+            elif "already declared" in txt or "field and method with the same name" in txt or "duplicate method" in txt:
+                v.disagree("method-collision", {"yaml": ent["yaml"]}, {"compiler": msg[:4]})
+        scripts = []
+        for e in chunk:
+            if e["name"] not in good:
+                continue
+            c = e["cases"][0]
+            scripts.append({"id": len(scripts), "pkg": e["name"], "ops": [{"op": "Methods"}] + [op_script(h["op"]) for h in c["hist"]], "_e": e})
+        res = pb.run([{k: x for k, x in s.items() if k != "_e"} for s in scripts])
+        for s in scripts:
+            out[s["_e"]["name"]] = (s["_e"], res[s["id"]], pb.pkgs[s["_e"]["name"]]["declared_pkg"])
+        _sh.rmtree(pb.dir, ignore_errors=True)
+    n_cmp = 0
+    for name, (e, res, declared_pkg) in out.items():
+        c = e["cases"][0]
+        api = c["api"]
+        if res.get("crashed") is not None or res.get("timeout") or res.get("err"):
+            v.disagree("probe", {"yaml": e["yaml"]}, {"res": {k: res.get(k) for k in ("crashed", "timeout", "err", "stderr")}})
+            continue
+        n_cmp += 1
+        ms = res["res"][0].get("methods") or []
+        got = {(m["name"], m["in"], m["out"]) for m in ms if m["name"] not in BASE_API and not m["name"].startswith("_")}
+        want = {(m["name"], m["in"], m["out"]) for m in api["methods"]}
+        missing_base = BASE_API - {m["name"] for m in ms}
+        if missing_base:
+            v.disagree("container-api-missing", {"yaml": e["yaml"]}, {"missing": sorted(missing_base)})
+            continue
+        if got != want:
+            v.disagree("getter-method-set", {"yaml": e["yaml"]}, {"missing": sorted(want - got), "unexpected": sorted(got - want)},
+                       tags={"missing": len(want - got), "unexpected": len(got - want)})
+            continue
+        if declared_pkg != api["names"]["pkg"]:
+            v.disagree("package-name", {"yaml": e["yaml"]}, {"expected": api["names"]["pkg"], "got": declared_pkg})
+            continue
+        src_type = "type %s struct" % api["names"]["ctype"]
+        if src_type not in e["source"]:
+            v.disagree("container-type-name", {"yaml": e["yaml"]}, {"expected": api["names"]["ctype"]})
+            continue
+        res2 = dict(res)
+        res2["res"] = res["res"][1:]
+        d = compare_case(c, res2)
+        if d is not None:
+            v.disagree(d["what"], {"yaml": e["yaml"], "ops": [h["op"] for h in c["hist"]]}, d)
+    _sh.rmtree(rp.wd, ignore_errors=True)
+    if n_acc == 0 or n_rej == 0 or n_cmp < 0.5 * n_acc:
+        raise core.InfraError("degenerate exploration: accept=%d reject=%d compared=%d (%s)" % (n_acc, n_rej, n_cmp, rp.unobservable))
+    rc = v.finish(tier, t0)
+    sample = accepted[len(accepted) // 2]
+    core.write_evidence(pid, tier, "model_checking", {
+        "states": r.states, "transitions": r.generated, "traces_validated_against_impl": n_cmp,
+        "samples": [{"yaml": sample["yaml"], "expected_api": sample["cases"][0]["api"], "ops": [h["op"] for h in sample["cases"][0]["hist"]]}],
+        "evaluations": len(entries), "distinct_nontrivial": n_rej + sum(1 for e in accepted if e["cases"][0]["api"]["methods"]),
+        "rule": "TLC enumerates getter x type form x must_getter x default_must_getter x meta names x role of a second service "
+                "(own getter, same getter, todo with a getter, failing constructor with a must-getter); the verdict and, for accepted "
+                "configurations, the reflected method set with signatures, package / type / constructor names, and the results of calling "
+                "every generated method (identity with Get, must-getters panic exactly on error) are compared with API.tla / Container.tla; "
+                "non-trivial = rejected by the model or with at least one getter",
+        "exhaustive": True, "model_accepts": n_acc, "model_rejects": n_rej, "unobservable": rp.unobservable,
+        "design_invariants_checked_by_tlc": ["ApiNoCollision", "SharedOnce"],
+        "known_findings_hit": {k: n for k, (f, n) in v.known_hit.items()},
+    }, time.time() - t0, violations=len(v.violations), assumptions=COMMON_ASSUMPTIONS + [
+        "what a getter written on a todo service produces is not determined by the properties (the code ignores it) and is not compared"])
+    return rc
